@@ -109,12 +109,20 @@ def step (d : D) (op impl : String) : D × DrvOut :=
       pure (rl, hl, hs, body, secrets)
     match parsed with
     | none => (d, { model := "bad-op", spec := "FAIL unparsable dump op" })
-    | some (rl, hl, hs, body, secrets) =>
+    | some (rl, hl, hs, body, _) =>
       let model := Hex.encode (dump d.redactSet rl hl hs body)
       let spec := match Hex.decode impl with
         | none => "FAIL unparsable implementation answer"
         | some out =>
-          if secrets.any fun s => isInfixB s out then "FAIL the value of a credential header appears in the request dump"
+          -- the spec is evaluated on the IMPLEMENTATION's dump; secrets = every non-empty value of every
+          -- header whose name is a listed credential header up to case
+          let (bad, badOther) := leaked d.redactSet rl hl hs body out
+          if !bad.isEmpty then
+            "FAIL the value of a credential header appears in the request dump: " ++ bytesStr (bad.head?.getD [])
+          else if !badOther.isEmpty then
+            if impl == model && !keysCanonical d.redactSet hs then
+              "KNOWN noncanonical-key a credential header whose map key is not in canonical spelling is dumped in clear (exact-match lookup in requestHeadersToRedact): " ++ bytesStr (badOther.head?.getD [])
+            else "FAIL the value of a credential header appears in the request dump: " ++ bytesStr (badOther.head?.getD [])
           else "ok"
       (d, { model, spec })
   | _ => (d, { model := "bad-op" })
